@@ -102,6 +102,58 @@ pub fn roundtrip_search(seed: u64) -> String {
             return format!("{{\"found\":true,\"finder\":\"roundtrip\",\"atom_len\":{sz},\"prefix\":\"{}\",\"is_canonical\":{canon},\"len_untrusted\":\"{l1:?}\",\"len_trusted\":\"{l2:?}\",\"serialized_len\":{},\"decodes_back\":\"{back:?}\"}}", hex(&ser[..6.min(ser.len())]), ser.len());
         }
     }
+    // integers (inline small atoms included) alone and inside a pair
+    for v in [0i64, 1, 2, 0x7e, 0x7f, 0x80, 0x81, 0xff, 0x100, 0x7fff, 0x8000, 0xffff, 0x7fffff, 0x800000, 0x3ffffff, 0x4000000, -1, -128, -129, -32768] {
+        cases += 1;
+        let mut a = Allocator::new();
+        let n = a.new_number(v.into()).unwrap();
+        let want = a.atom(n).as_ref().to_vec();
+        let p = a.new_pair(n, n).unwrap();
+        for node in [n, p] {
+            let ser = node_to_bytes(&a, node).unwrap();
+            let mut b = Allocator::new();
+            let back = node_from_bytes(&mut b, &ser);
+            let same = match back {
+                Ok(m) => match b.sexp(m) {
+                    clvmr::allocator::SExp::Atom => node == n && b.atom(m).as_ref() == want.as_slice(),
+                    clvmr::allocator::SExp::Pair(l, r) => node == p && b.atom(l).as_ref() == want.as_slice() && b.atom(r).as_ref() == want.as_slice(),
+                },
+                Err(_) => false,
+            };
+            if !same || !is_canonical_serialization(&ser) || serialized_length_from_bytes(&ser).ok() != Some(ser.len() as u64) {
+                return format!("{{\"found\":true,\"finder\":\"roundtrip\",\"integer\":{v},\"in_pair\":{},\"serialization\":\"{}\",\"decodes_to_same_tree\":{same},\"is_canonical\":{}}}", node == p, hex(&ser), is_canonical_serialization(&ser));
+            }
+        }
+    }
+    // converse clause: an overlong (non-minimal) length prefix with the full payload present decodes,
+    // so it must NOT be judged canonical (it re-serializes to fewer bytes)
+    for size in [0usize, 1, 2, 0x3f, 0x40, 0x41, 0xfff, 0x1000, 0x1fff, 0x2000, 0x2001, 0xfffff] {
+        for k in 1usize..=6 {
+            let bits = [6usize, 13, 20, 27, 34, 41][k - 1];
+            if (size as u128) >= (1u128 << bits) {
+                continue;
+            }
+            let minimal_k = (1..=6).find(|j| (size as u128) < (1u128 << [6usize, 13, 20, 27, 34, 41][*j - 1])).unwrap();
+            if k <= minimal_k {
+                continue;
+            }
+            cases += 1;
+            let mut input = vec![0u8; k];
+            let mut v = size as u64;
+            for i in (0..k).rev() {
+                input[i] = v as u8;
+                v >>= 8;
+            }
+            input[0] |= (0xff00u16 >> k) as u8;
+            input.extend(std::iter::repeat(0x99u8).take(size));
+            let mut b = Allocator::new();
+            let decodes = node_from_bytes(&mut b, &input).is_ok();
+            let canon = is_canonical_serialization(&input);
+            if decodes && canon {
+                return format!("{{\"found\":true,\"finder\":\"roundtrip\",\"input_prefix\":\"{}\",\"payload_len\":{size},\"prefix_len\":{k},\"minimal_prefix_len\":{minimal_k},\"observed\":\"decodes and is judged canonical, but re-serializes with a shorter prefix\"}}", hex(&input[..k]));
+            }
+        }
+    }
     for _ in 0..200 {
         cases += 1;
         let mut a = Allocator::new();
